@@ -3,7 +3,9 @@
 (* combinations (C17), routing domains (C18), payload sizes and failing-write    *)
 (* subsets (C19).                                                                *)
 EXTENDS Naturals, Sequences, SequencesExt, FiniteSets, Json, IOUtils, TLC
-Auth == [endpoint : {"pending", "request", "response"}, identity : {"absent", "wrong", "right", "other-backends-agent", "end-user"},
+Auth == [endpoint : {"pending", "request", "response"}, identity : {"absent", "wrong", "right", "other-backends-agent", "end-user",
+                    \* near misses of the registered identity: it has to EQUAL the registered one
+                    "near-prefix", "near-iam-prefix", "near-case", "near-suffix", "near-domain", "near-subaddress"},
          backend : {"own", "other", "unknown", "missing"}, rid : {"own", "other", "unknown", "none"}]
 GPrefixes == {"", "/", "/a", "/a/", "/a/b", "/ab", "/b"}
 GPaths == {"/", "/a", "/a/b", "/a/b/c", "/ab", "/abc", "/b", "/c"}
